@@ -426,6 +426,8 @@ package saml2
 //@        AllAssertionsValidated(sp, res)
 //@   ensures [C01, C02] unsigned.allsigned: err == nil && !sp.SkipSignatureValidation && !res.SignatureValidated ==>
 //@        AllMatchesSigned(sp, res.$src, NMatch(res.$src, SAMLAssertionNamespace, AssertionTag))
+//@   exit [C12] limit: err == nil ==> b64ok(encodedResponse) && raw == b64dec(encodedResponse)
+//@        && (doc.$bytes == raw || doc.$bytes == readAllOf(Inflated(raw, sp.MaximumDecompressedBodySize)))
 //@   iter 0
 //@     invariant [C01, C04] validated: AllAssertionsValidated(sp, decodedResponse)
 //@     invariant [C01, C02] allsigned: AllMatchesSigned(sp, unverifiedResponse, $k)
@@ -444,6 +446,8 @@ package saml2
 //@   ensures [C04, C10] flag.verified: err == nil && res.SignatureValidated ==> Verified(res.$src, sp.IDPCertificateStore, sp.Clock)
 //@   ensures [C02, C04, C10] flag.good: err == nil && res.SignatureValidated ==> sigState(validatedFrom(res.$src), sp.IDPCertificateStore, sp.Clock) == 1
 //@   ensures [C02, C04, C10] flag.missing: err == nil && !sp.SkipSignatureValidation && !res.SignatureValidated ==> sigState(res.$src, sp.IDPCertificateStore, sp.Clock) == 0
+//@   exit [C12] limit: err == nil ==> b64ok(encodedResponse) && raw == b64dec(encodedResponse)
+//@        && (doc.$bytes == raw || doc.$bytes == readAllOf(Inflated(raw, sp.MaximumDecompressedBodySize)))
 
 //@ func (sp *SAMLServiceProvider) ValidateEncodedLogoutRequestPOST(encodedRequest string) (res *LogoutRequest, err error)
 //@   requires InboundOK(sp)
@@ -456,6 +460,8 @@ package saml2
 //@   ensures [C04, C10] flag.verified: err == nil && res.SignatureValidated ==> Verified(res.$src, sp.IDPCertificateStore, sp.Clock)
 //@   ensures [C02, C04, C10] flag.good: err == nil && res.SignatureValidated ==> sigState(validatedFrom(res.$src), sp.IDPCertificateStore, sp.Clock) == 1
 //@   ensures [C02, C04, C10] flag.missing: err == nil && !sp.SkipSignatureValidation && !res.SignatureValidated ==> sigState(res.$src, sp.IDPCertificateStore, sp.Clock) == 0
+//@   exit [C12] limit: err == nil ==> b64ok(encodedRequest) && raw == b64dec(encodedRequest)
+//@        && (doc.$bytes == raw || doc.$bytes == readAllOf(Inflated(raw, sp.MaximumDecompressedBodySize)))
 
 // The unverified decoders (C20, C12): no key or configuration input; raw first, then the inflation limited to
 // the fixed 5 MiB; what is decoded is exactly the raw bytes or that inflation.
@@ -494,12 +500,26 @@ package saml2
 //@   ensures [C01, C04] unsigned: err == nil && !sp.SkipSignatureValidation && !info.ResponseSignatureValidated ==>
 //@        forall k int :: 0 <= k && k < len(info.Assertions) ==>
 //@            info.Assertions[k].SignatureValidated && Verified(info.Assertions[k].$src, sp.IDPCertificateStore, sp.Clock)
+//@   exit [C03] wrapped: response == nil ==> err is ErrVerification && ErrVerification(err).Cause != nil
+//@   exit [C08] values: err == nil && response.Assertions[0].AttributeStatement != nil ==>
+//@        forall j int :: 0 <= j && j < len(response.Assertions[0].AttributeStatement.Attributes) ==>
+//@            has(assertionInfo.Values, response.Assertions[0].AttributeStatement.Attributes[j].Name)
+//@   exit [C08] values.unique: err == nil && response.Assertions[0].AttributeStatement != nil ==>
+//@        forall j int :: 0 <= j && j < len(response.Assertions[0].AttributeStatement.Attributes) ==>
+//@            (forall i int :: j < i && i < len(response.Assertions[0].AttributeStatement.Attributes) ==>
+//@                 response.Assertions[0].AttributeStatement.Attributes[i].Name != response.Assertions[0].AttributeStatement.Attributes[j].Name)
+//@            ==> assertionInfo.Values[response.Assertions[0].AttributeStatement.Attributes[j].Name] == response.Assertions[0].AttributeStatement.Attributes[j]
 //@   exit [C04] mirror: err == nil ==> assertionInfo.ResponseSignatureValidated == response.SignatureValidated
 //@   exit [C01, C08] assertions: err == nil ==> assertionInfo.Assertions == response.Assertions
 //@   exit [C03] profile: err == nil ==> ProfileOK(sp, response)
 //@   exit [C05, C06] warnings: err == nil ==> CondWellFormed(response.Assertions[0].Conditions)
 //@        && WarningsMirror(sp, response.Assertions[0].Conditions, assertionInfo.WarningInfo)
 //@   exit [C08] nameid: err == nil ==> assertionInfo.NameID == response.Assertions[0].Subject.NameID.Value
+//@   loop 0
+//@     invariant [C08] present: forall j int :: 0 <= j && j < $i ==> has(assertionInfo.Values, attributeStatement.Attributes[j].Name)
+//@     invariant [C08] last: forall j int :: 0 <= j && j < $i ==>
+//@          (forall i int :: j < i && i < $i ==> attributeStatement.Attributes[i].Name != attributeStatement.Attributes[j].Name)
+//@          ==> assertionInfo.Values[attributeStatement.Attributes[j].Name] == attributeStatement.Attributes[j]
 //@   exit [C08] session: err == nil && response.Assertions[0].AuthnStatement != nil ==>
 //@        assertionInfo.SessionIndex == response.Assertions[0].AuthnStatement.SessionIndex
 //@        && assertionInfo.AuthnInstant == response.Assertions[0].AuthnStatement.AuthnInstant
